@@ -1,7 +1,74 @@
-(* Property C12 — DNA views are lossless and aligned.  Statements only; proofs in Proofs/Geno*.v. *)
-From PG Require Import Common.Tactics Model.Geno Model.GenoViews Proofs.GenoBasics.
+(* Property C12 — DNA views are lossless and stay aligned with the specification.
+   Statements only; proofs in Proofs/GenoConcrete.v, Proofs/GenoViewsProofs.v.
+   [normalize d] is the DNA the library builds from the decisions d (constructor normal form);
+   [bind q s x] is DNA.use_spec (None = ValueError) returning the DNA with the specification node bound to every
+   node; [aligned q s b] says every node of b is bound to the decision point of its own position. *)
+From PG Require Import Common.Tactics Model.Geno Model.GenoViews Proofs.GenoBasics Proofs.GenoValid Proofs.GenoNext
+  Proofs.GenoConcrete Proofs.GenoViewsProofs Proofs.GenoExamples.
 
-Theorem C12_with_nth : forall A B (f : A -> B) d l n,
-  with_nth f d l n = match nth_error l n with Some x => f x | None => d end.
-Proof. exact with_nth_nth_error. Qed.
-Print Assumptions C12_with_nth.
+(* flat numbers: from_numbers (to_numbers d) gives the DNA back, bound and aligned *)
+Theorem C12_numbers_roundtrip : forall q s d, wf s = true -> valid s d = true ->
+  exists b, from_numbers q s (to_numbers (normalize d)) = Some b /\ strip b = normalize d /\ aligned q s b.
+Proof. intros q s d Hwf Hv. apply (numbers_roundtrip q s d Hwf Hv). Qed.
+Print Assumptions C12_numbers_roundtrip.
+
+(* compact JSON value: the constructor's parser reads back every DNA in normal form whose inner nodes carry
+   an int, a float or no value (no specification needed) *)
+Theorem C12_compact_json_roundtrip : forall x, jsonable x ->
+  exists f0, forall f, f0 <= f -> parse_nest f (to_compact x) = Some x.
+Proof. exact compact_roundtrip. Qed.
+Print Assumptions C12_compact_json_roundtrip.
+
+(* ... in particular the DNA of every valid decision *)
+Theorem C12_compact_json_roundtrip_valid : forall s d, wf s = true -> valid s d = true ->
+  exists f0, forall f, f0 <= f -> parse_nest f (to_compact (normalize d)) = Some (normalize d).
+Proof. exact compact_json_roundtrip. Qed.
+Print Assumptions C12_compact_json_roundtrip_valid.
+
+(* verbose JSON form (value and children apart, children compact) *)
+Theorem C12_verbose_json_roundtrip : forall x, jsonable x -> ntop x -> (forall gs, dkids x <> [D VNone gs]) ->
+  exists f0, forall f, f0 <= f -> parse_verbose f (to_verbose x) = Some x.
+Proof. exact verbose_roundtrip. Qed.
+Print Assumptions C12_verbose_json_roundtrip.
+
+(* nested numbers (to_numbers(flatten=False)) with the repaired rendering of conditional chains *)
+Theorem C12_nested_roundtrip : forall s d, wf s = true -> valid s d = true ->
+  exists f0, forall f, f0 <= f -> parse_nest f (to_nested false (normalize d)) = Some (normalize d).
+Proof. exact nested_numbers_roundtrip. Qed.
+Print Assumptions C12_nested_roundtrip.
+
+(* ... and the rendering found in the code (lossy_chain = true) does lose DNA(1, 2, 1) *)
+Theorem C12_nested_roundtrip_refuted :
+  let d := D (VInt 1) [D (VInt 2) [D (VInt 1) []]] in
+  parse_nest 10 (to_nested true d) <> Some d /\ parse_nest 10 (to_nested false d) = Some d.
+Proof. exact nested_lossy_refuted. Qed.
+Print Assumptions C12_nested_roundtrip_refuted.
+
+(* use_spec never changes the tree, and whatever it returns is aligned — this covers every producer that
+   attaches the specification through use_spec: first_dna / next_dna / iter_dna / random_dna (attach_spec),
+   DNA(value, spec=...), from_numbers, from_dict *)
+Theorem C12_bind_keeps_tree : forall q s x b, bind q s x = Some b -> strip b = x.
+Proof. exact bind_strip. Qed.
+Print Assumptions C12_bind_keeps_tree.
+
+Theorem C12_producers_aligned : forall q s x b, bind q s x = Some b -> aligned q s b.
+Proof. exact bind_aligned. Qed.
+Print Assumptions C12_producers_aligned.
+
+(* every valid decision can be bound (so first / next / random, which return valid decisions by C11, hand out
+   a bound, aligned DNA) *)
+Theorem C12_valid_binds : forall q s d, wf s = true -> valid s d = true ->
+  exists b, bind q s (normalize d) = Some b /\ strip b = normalize d /\ aligned q s b.
+Proof. exact bind_complete. Qed.
+Print Assumptions C12_valid_binds.
+
+(* validation accepts every member *)
+Theorem C12_valid_validates : forall s d, wf s = true -> valid s d = true -> validate s (normalize d) = true.
+Proof. exact validate_complete. Qed.
+Print Assumptions C12_valid_validates.
+
+(* an aligned DNA is exactly the DNA rebuilt from its raw numbers: all exported views coincide *)
+Theorem C12_views_of_aligned : forall q s d b, wf s = true -> valid s d = true -> strip b = normalize d ->
+  aligned q s b -> from_numbers q s (to_numbers (strip b)) = Some b.
+Proof. exact rebuilt_is_same. Qed.
+Print Assumptions C12_views_of_aligned.
